@@ -32,12 +32,12 @@ pub struct Limits {
 
 impl Limits {
     /// How the constraints object under test comes to hold these limits: 0 = Constraints::new, 1 = update_range over an
-    /// earlier range with off-zero centres, 2 = update_range over an earlier unconstrained (from == to) range. The
+    /// earlier range with off-zero centres, 2 = update_range over an earlier unconstrained (from == to) range, 3 = from_degrees. The
     /// choice is a function of the data (so replays agree) and must not matter: reference values are always taken
     /// from a fresh Constraints::new.
     pub fn history(&self) -> usize {
         let h = self.from[0].to_bits() ^ self.to[0].to_bits().rotate_left(17) ^ self.from[5].to_bits().rotate_left(31) ^ self.weight.to_bits().rotate_left(7);
-        ((h ^ (h >> 29) ^ (h >> 47)) % 3) as usize
+        ((h ^ (h >> 29) ^ (h >> 47)) % 4) as usize
     }
     pub fn build(&self) -> Constraints {
         match self.history() {
@@ -47,11 +47,13 @@ impl Limits {
                 c.update_range(self.from, self.to);
                 c
             }
-            _ => {
+            2 => {
                 let mut c = Constraints::new([-0.3; 6], [-0.3; 6], self.weight);
                 c.update_range(self.from, self.to);
                 c
             }
+            // the degrees constructor (limits go through degrees and back: equal up to an ulp)
+            _ => Constraints::from_degrees(std::array::from_fn(|i| self.from[i].to_degrees()..=self.to[i].to_degrees()), self.weight),
         }
     }
 }
